@@ -21,6 +21,7 @@ import TLX.Props.C01Capstone
 import TLX.Props.C12Dissect
 import TLX.Spec.TlsCapture
 set_option linter.unusedSimpArgs false
+set_option autoImplicit false
 namespace TLX.Props.C01File
 open TLX TLX.MainLoop TLX.Spec.Demux TLX.Lemmas.MainLoop TLX.Dissect TLX.OutBytes
 open TLX.Container (Item)
@@ -857,3 +858,290 @@ theorem exact_frames_parse (f : Bytes) (c : Pipeline.Conn) (pc psv : Bytes) (h :
 end
 
 end TLX.Props.C01File
+
+/-! ### non-vacuity: a concrete capture file, key-log file and option vector -/
+namespace TLX.Props.C01File.Ex
+open TLX TLX.MainLoop TLX.Spec.Demux TLX.Dissect TLX.Export
+open TLX.Spec.FrameBuild TLX.Spec.TlsCapture
+open TLX.Cipher TLX.RecordLayer TLX.Spec.TlsSender TLX.Props.C01 TLX.Lemmas.Pipeline TLX.Spec.TlsConnection
+open TLX.Lemmas.Capstone TLX.Props.C01Pipeline TLX.Spec.TlsFraming TLX.Props.C01Capstone TLX.Props.C01Capstone.Ex
+open TLX.Props.C01Pipeline.Ex2 TLX.Props.C01.Ex
+
+def fl0 : Flow := ⟨false, [10, 0, 0, 1], 5555, [10, 0, 0, 2], 443⟩
+def cMac : Bytes := [2, 0, 0, 0, 0, 1]
+def sMac : Bytes := [2, 0, 0, 0, 0, 2]
+
+def tcpOf (d : Bool) (seq : Nat) (payload : Bytes) : Tcp :=
+  ⟨if d then 443 else 5555, if d then 5555 else 443, seq, 0, 0x18, 0, 8192, 0, 0, [], payload⟩
+
+/-- Ethernet II / IPv4 (DF, TTL 64, no options) / TCP (PSH|ACK, no options), no trailer -/
+def segFrame (d : Bool) (seq : Nat) (payload : Bytes) : Spec.FrameBuild.Frame :=
+  ⟨if d then cMac else sMac, if d then sMac else cMac,
+   .v4 ⟨0, 1, true, false, 64, 0, if d then [10, 0, 0, 2] else [10, 0, 0, 1], if d then [10, 0, 0, 1] else [10, 0, 0, 2], []⟩,
+   .tcp (tcpOf d seq payload), []⟩
+
+theorem isSeg_mk (d : Bool) (seq : Nat) (payload : Bytes) (hs : seq < 4294967296) (hp : payload.length < 60000) :
+    IsSeg fl0 d (segFrame d seq payload) (tcpOf d seq payload) := by
+  cases d <;>
+    simp [IsSeg, Frame.WF, Upper.WF, Tcp.WF, V4.WF, segFrame, tcpOf, Upper.encode, Tcp.encode, Tcp.header, be2, be4, fl0,
+      cMac, sMac] <;> omega
+
+/-- capture time of packet `n`: 1 700 000 000 s + (1000 + n) ns, as the nanosecond libpcap reader yields it -/
+def timeAt (n : Nat) : Container.Time := ⟨1000 + n, 10 ^ 9, 1700000000, true⟩
+
+/-- the capstone example's capture `cap0` (ClientHello in two segments, coalesced server flight, False Start, a
+    retransmission, a split server record, the client's sequence numbers wrapping 2^32) as frames, tagged from `n` -/
+def segEvs : Nat → List (Bool × Bytes × Nat) → List CEv
+  | _, [] => []
+  | n, (d, pl, off) :: rest =>
+    .seg (timeAt n) d (segFrame d ((isnOf d + off) % 4294967296) pl) (tcpOf d ((isnOf d + off) % 4294967296) pl) ::
+      segEvs (n + 1) rest
+
+/-- a foreign packet: an ARP request (not IP) -/
+def arp : CapEv :=
+  ⟨timeAt 0, List.replicate 6 0xff ++ cMac ++ [0x08, 0x06] ++ [0, 1, 8, 0, 6, 4, 0, 1] ++ cMac ++ [10, 0, 0, 1] ++
+      List.replicate 6 0 ++ [10, 0, 0, 2], .notIp⟩
+
+/-- the described capture: the ARP request first (so every tag is shifted), then the connection -/
+def evs0 : List CEv := .foreign arp :: segEvs 1 cap0
+
+theorem segEvs_described (l : List (Bool × Bytes × Nat)) (h : ∀ x ∈ l, x.2.1.length < 60000) (n : Nat) :
+    Described fl0 (segEvs n l) := by
+  induction l generalizing n with
+  | nil => intro ev hev; cases hev
+  | cons x rest ih =>
+    obtain ⟨d, pl, off⟩ := x
+    intro ev hev
+    simp only [segEvs, List.mem_cons] at hev
+    rcases hev with rfl | hev
+    · exact isSeg_mk d _ pl (Nat.mod_lt _ (by decide)) (h (d, pl, off) (by simp))
+    · exact ih (fun y hy => h y (by simp [hy])) (n + 1) ev hev
+
+theorem arp_foreign : Foreign fl0 arp := by
+  refine ⟨by decide +kernel, ?_⟩
+  intro tag h
+  simp [arp, pktOf, Ingest.otherPkt] at h
+
+theorem described0 : Described fl0 evs0 := by
+  intro ev hev
+  simp only [evs0, List.mem_cons] at hev
+  rcases hev with rfl | hev
+  · exact arp_foreign
+  · exact segEvs_described cap0 (by decide +kernel) 1 ev hev
+
+theorem notMinusOne (n : Nat) : Ingest.isMinusOne (timeAt n) = false := by
+  simp only [Ingest.isMinusOne, timeAt, if_true]
+  simp
+  omega
+
+theorem segEvs_times (l : List (Bool × Bytes × Nat)) (n : Nat) :
+    ∀ e ∈ (segEvs n l).map CEv.cap, Ingest.isMinusOne e.t = false := by
+  induction l generalizing n with
+  | nil => intro e he; cases he
+  | cons x rest ih =>
+    obtain ⟨d, pl, off⟩ := x
+    intro e he
+    simp only [segEvs, List.map_cons, List.mem_cons] at he
+    rcases he with rfl | he
+    · exact notMinusOne n
+    · exact ih (n + 1) e he
+
+theorem times0 : ∀ e ∈ evs0.map CEv.cap, Ingest.isMinusOne e.t = false := by
+  intro e he
+  simp only [evs0, List.map_cons, List.mem_cons] at he
+  rcases he with rfl | he
+  · exact notMinusOne 0
+  · exact segEvs_times cap0 1 e he
+
+/-! the capture FILE: nanosecond libpcap, little endian -/
+def cv0 : Spec.Containers.Variant := .legacy { nano := true }
+
+def cevOf (e : CapEv) : Spec.Containers.Ev := .pkt (e.t.offset.toNat * 10 ^ 9 + e.t.ticks) e.buf
+def cevs0 : List Spec.Containers.Ev := (evs0.map CEv.cap).map cevOf
+
+theorem legacy_wf (l : List Spec.Containers.Ev) (v : Spec.Containers.LegacyVariant) (hx : v.extraLen = fun _ => 0)
+    (h : ∀ ev ∈ l, ∃ t d, ev = .pkt t d ∧ t / v.unitsPerSecond < 2 ^ 32 ∧ d.length < 2 ^ 32) (i : Nat) :
+    v.WFfrom i l := by
+  induction l generalizing i with
+  | nil => trivial
+  | cons ev rest ih =>
+    obtain ⟨t, d, rfl, h1, h2⟩ := h ev (by simp)
+    simp only [Spec.Containers.LegacyVariant.WFfrom, hx, Nat.add_zero]
+    exact ⟨h1, h2, ih (fun e he => h e (by simp [he])) (i + 1)⟩
+
+theorem segFrame_length (d : Bool) (seq : Nat) (pl : Bytes) : (segFrame d seq pl).encode.length = 54 + pl.length := by
+  cases d <;>
+    simp [segFrame, tcpOf, Frame.encode, Frame.etherType, Frame.datagram, V4.encode, V4.fixed, Upper.encode, Tcp.encode,
+      Tcp.header, be2, be4, cMac, sMac, Upper.proto] <;> omega
+
+theorem segEvs_bounds (l : List (Bool × Bytes × Nat)) (h : ∀ x ∈ l, x.2.1.length < 60000) (n : Nat) :
+    ∀ e ∈ (segEvs n l).map CEv.cap, ∃ k, k < n + l.length ∧ e.t = timeAt k ∧ e.buf.length < 70000 := by
+  induction l generalizing n with
+  | nil => intro e he; cases he
+  | cons x rest ih =>
+    obtain ⟨d, pl, off⟩ := x
+    intro e he
+    simp only [segEvs, List.map_cons, List.mem_cons] at he
+    rcases he with rfl | he
+    · refine ⟨n, by simp, rfl, ?_⟩
+      have := h (d, pl, off) (by simp)
+      simp only [CEv.cap, segFrame_length]
+      simp only at this
+      omega
+    · obtain ⟨k, hk, h1, h2⟩ := ih (fun y hy => h y (by simp [hy])) (n + 1) e he
+      exact ⟨k, by simp only [List.length_cons]; omega, h1, h2⟩
+
+theorem cwf0 : cv0.WF cevs0 := by
+  refine ⟨by decide, by decide, by decide, by decide, by decide, legacy_wf _ _ rfl ?_ 0⟩
+  intro ev hev
+  simp only [cevs0, List.mem_map] at hev
+  obtain ⟨e, ⟨c, hc, rfl⟩, rfl⟩ := hev
+  have hb : ∃ k, k < 100 ∧ (CEv.cap c).t = timeAt k ∧ (CEv.cap c).buf.length < 70000 := by
+    simp only [evs0, List.mem_cons] at hc
+    rcases hc with rfl | hc
+    · exact ⟨0, by decide, rfl, by decide⟩
+    · obtain ⟨k, hk, h1, h2⟩ := segEvs_bounds cap0 (by decide +kernel) 1 _ (List.mem_map.mpr ⟨c, hc, rfl⟩)
+      exact ⟨k, by have : cap0.length = 10 := rfl; omega, h1, h2⟩
+  obtain ⟨k, hk, ht, hl⟩ := hb
+  refine ⟨_, _, rfl, ?_, by omega⟩
+  rw [ht]
+  simp only [timeAt, Spec.Containers.LegacyVariant.unitsPerSecond, if_true]
+  have : ((1700000000 : Int).toNat * 10 ^ 9 + (1000 + k)) / 10 ^ 9 = 1700000000 := by
+    have : (1700000000 : Int).toNat = 1700000000 := rfl
+    rw [this]; omega
+  rw [this]; decide
+
+theorem evs0_times (c : CEv) (hc : c ∈ evs0) : ∃ k, k < 100 ∧ (CEv.cap c).t = timeAt k := by
+  simp only [evs0, List.mem_cons] at hc
+  rcases hc with rfl | hc
+  · exact ⟨0, by decide, rfl⟩
+  · obtain ⟨k, hk, h1, _⟩ := segEvs_bounds cap0 (by decide +kernel) 1 _ (List.mem_map.mpr ⟨c, hc, rfl⟩)
+    exact ⟨k, by have : cap0.length = 10 := rfl; omega, h1⟩
+
+theorem scale_cev (e : CapEv) (k : Nat) (hk : k < 100) (ht : e.t = timeAt k) :
+    Spec.Containers.scale cv0 (cevOf e) = some e.item := by
+  have h1 : (1700000000 : Int).toNat = 1700000000 := rfl
+  simp only [cevOf, cv0, Spec.Containers.scale, Spec.Containers.LegacyVariant.unitsPerSecond, if_true, ht, timeAt, h1,
+    CapEv.item]
+  have e1 : (1700000000 * 10 ^ 9 + (1000 + k)) % 10 ^ 9 = 1000 + k := by omega
+  have e2 : (1700000000 * 10 ^ 9 + (1000 + k)) / 10 ^ 9 = 1700000000 := by omega
+  rw [e1, e2]
+  rfl
+
+theorem filterMap_map_some {α β γ : Type} (l : List α) (f : α → β) (g : β → Option γ) (h : α → γ)
+    (hh : ∀ x ∈ l, g (f x) = some (h x)) : (l.map f).filterMap g = l.map h := by
+  induction l with
+  | nil => rfl
+  | cons x xs ih =>
+    simp only [List.map_cons, List.filterMap_cons, hh x (by simp), ih (fun y hy => hh y (by simp [hy]))]
+
+theorem items0 : cevs0.filterMap (Spec.Containers.scale cv0) = (evs0.map CEv.cap).map CapEv.item := by
+  unfold cevs0
+  apply filterMap_map_some
+  intro e he
+  simp only [List.mem_map] at he
+  obtain ⟨c, hc, rfl⟩ := he
+  obtain ⟨k, hk, ht⟩ := evs0_times c hc
+  exact scale_cev _ k hk ht
+
+/-! the options and the key-log file -/
+def args0 : Args := ⟨none, none, false, false, false⟩
+def ports0 : List Int := Options.Src.builtin ++ Options.Src.pDefault
+
+/-- the key-log FILE: one NSS line, CRLF line ending -/
+def keyText : Keylog.Str :=
+  Keylog.s_CLIENT_RANDOM ++ [32] ++ Keylog.hexOf (Pipeline.natsOfBytes cr0) ++ [32] ++ Keylog.hexOf (List.replicate 48 5) ++
+    [13, 10]
+
+example : (fileKeysOf (some keyText)).getD [] = kl0 := by decide +kernel
+
+def pkts0 : List Pkt := flowPkts fl0 0 evs0
+def p00 : Pkt := ⟨.tcp, ⟨[10, 0, 0, 1], 5555⟩, ⟨[10, 0, 0, 2], 443⟩, (rC 0).take 20, true, 1⟩
+theorem fp0 : flowPkts fl0 0 evs0 = p00 :: pkts0.tail := by decide +kernel
+
+theorem wires0 : WiresInOrder evs0 (t0.stream Cipher.Toy.prims Cipher.Toy.laws cls0 (legacySnd k0)) := by
+  intro d
+  cases d
+  · refine ⟨⟨isnOf false, ?_⟩, by decide +kernel⟩
+    have hcut : IsCut (t0.stream Cipher.Toy.prims Cipher.Toy.laws cls0 (legacySnd k0) false) (chunksOf false) :=
+      ⟨by decide +kernel, by decide +kernel⟩
+    have h := Delivers.cut (k := 0) (isn := isnOf false) (chunksOf false) hcut
+    have hd := Delivers.dup (k := 0) (isn := isnOf false)
+      ((segsOf (isnOf false) 0 (chunksOf false)).take 3) [] ((segsOf (isnOf false) 0 (chunksOf false)).drop 4)
+      ((segsOf (isnOf false) 0 (chunksOf false)).getD 3 (0, []))
+      (by
+        have e : (segsOf (isnOf false) 0 (chunksOf false)).take 3 ++
+            (segsOf (isnOf false) 0 (chunksOf false)).getD 3 (0, []) ::
+              ([] ++ (segsOf (isnOf false) 0 (chunksOf false)).drop 4) = segsOf (isnOf false) 0 (chunksOf false) := by
+          decide +kernel
+        rw [e]; exact h)
+    have e2 : dirWires false evs0 =
+        (segsOf (isnOf false) 0 (chunksOf false)).take 3 ++
+          (segsOf (isnOf false) 0 (chunksOf false)).getD 3 (0, []) ::
+            ([] ++ (segsOf (isnOf false) 0 (chunksOf false)).getD 3 (0, []) ::
+              (segsOf (isnOf false) 0 (chunksOf false)).drop 4) := by decide +kernel
+    unfold InOrder
+    rw [e2]; exact hd
+  · refine ⟨⟨isnOf true, ?_⟩, by decide +kernel⟩
+    have hcut : IsCut (t0.stream Cipher.Toy.prims Cipher.Toy.laws cls0 (legacySnd k0) true) (chunksOf true) :=
+      ⟨by decide +kernel, by decide +kernel⟩
+    have e2 : dirWires true evs0 = segsOf (isnOf true) 0 (chunksOf true) := by decide +kernel
+    unfold InOrder
+    rw [e2]; exact Delivers.cut _ hcut
+
+def sess0 : Pipeline.Conn := sessionOf (evs0.map CEv.cap) (optsOf args0 ports0 []) p00 pkts0.tail
+
+theorem causal0' : Causal12 (connRecs (capInfo (evs0.map CEv.cap)) sess0) :=
+  ⟨(connRecs (capInfo (evs0.map CEv.cap)) sess0).take 1, (connRecs (capInfo (evs0.map CEv.cap)) sess0).drop 1,
+    (List.take_append_drop 1 _).symm, by decide +kernel, by decide +kernel,
+    ((connRecs (capInfo (evs0.map CEv.cap)) sess0).drop 1).headD (⟨[], []⟩, false),
+    ((connRecs (capInfo (evs0.map CEv.cap)) sess0).drop 1).tail, by decide +kernel, by decide +kernel⟩
+
+/-- **Non-vacuity of the grand theorem.** EVERY hypothesis of `tls12_capture_exact` holds for a concrete input: the capture
+    FILE is the nanosecond-libpcap encoding of an ARP request followed by the ten segments of the capstone's TLS 1.2
+    connection (as Ethernet / IPv4 / TCP frames built by `Spec.FrameBuild`), the key-log FILE is one CRLF-terminated NSS
+    line, no options; toy primitives, the regenerated suite table. So its conclusion holds: the run gets to the write loop,
+    and the file it writes contains exactly the conversation "hi" / sixteen bytes. -/
+theorem tls12_file_instance :
+    (∃ e, exportFile (fun _ _ _ => none) hashes Cipher.Toy.prims args0 cv0.isLegacy (some keyText)
+        (Spec.Containers.encode cv0 cevs0) = .abort (.write e)) ∨
+    ∃ f, exportFile (fun _ _ _ => none) hashes Cipher.Toy.prims args0 cv0.isLegacy (some keyText)
+        (Spec.Containers.encode cv0 cevs0) = .file f ∧ Exact f sess0 hi k16 := by
+  have hres : CipherSuite.resolve (Bytes.beNat t0.sh.cipherSuite) = some ps0 := by decide +kernel
+  have hargs : Pipeline.suiteArgs ps0 = some a0 := some_getD _ _ (by decide +kernel)
+  have hfound : (Keylog.findSessionSecrets ((fileKeysOf (some keyText)).getD []) (Pipeline.natsOfBytes t0.ch.random)).filter
+      (fun k => k.label == Keylog.s_CLIENT_RANDOM || k.label == Keylog.s_RSA) = f0 :: [] := by decide +kernel
+  have hsec : Pipeline.secretsOf false (f0 :: []) = some secrets0 := by decide +kernel
+  have hgen : KeySchedule.generateKeys hashes (Pipeline.ksVersion .tls12) a0.ks secrets0 t0.ch.random t0.sh.random
+      = .ok (some (.legacy k0)) :=
+    gen_eq (KeySchedule.generateKeys hashes .tls12 a0.ks secrets0 cr0 sr0) k0 (by decide +kernel)
+  have hcls : classOf a0.bulk (Pipeline.rlVersion .tls12)
+      (Session.extGet ((t0.sh.extensions.getD []).map extPair) [0x00, 0x16]).isSome a0.tagLen = some cls0 := by
+    decide +kernel
+  have hmac : 0 < (KeySchedule.macSuite hashes a0.ks.mac).outLen := by decide +kernel
+  have hck : KeyMatOk cls0 k0.clientKey k0.clientIv := by decide +kernel
+  have hsk : KeyMatOk cls0 k0.serverKey k0.serverIv := by decide +kernel
+  have hokc : ∀ e ∈ t0.cEvs, EvOk1 cls0 (KeySchedule.macSuite hashes a0.ks.mac).outLen e := by decide +kernel
+  have hoks : ∀ e ∈ t0.sEvs, EvOk1 cls0 (KeySchedule.macSuite hashes a0.ks.mac).outLen e := by decide +kernel
+  have hwr : ∀ d, ∀ r ∈ t0.records Cipher.Toy.prims Cipher.Toy.laws cls0 (legacySnd k0) d, WholeRecord r := by
+    intro d; cases d <;> decide +kernel
+  have hlen : t0.cEvs.length + t0.sEvs.length ≤ seqLimit := by decide +kernel
+  have hsc : Script12 t0.cEvs := ⟨[[16, 0, 0, 2, 9, 9]], _, rfl, by decide, by
+    intro e he
+    simp only [List.mem_cons, List.mem_nil_iff, or_false] at he
+    rcases he with rfl | rfl | rfl <;> exact ⟨_, _, _, rfl, by decide⟩⟩
+  have hss : Script12 t0.sEvs := ⟨[[11, 0, 0, 3, 1, 2, 3, 14, 0, 0, 0]], _, rfl, by decide, by
+    intro e he
+    simp only [List.mem_cons, List.mem_nil_iff, or_false] at he
+    rcases he with rfl | rfl <;> exact ⟨_, _, _, rfl, by decide⟩⟩
+  have h := tls12_capture_exact (fun _ _ _ => none) hashes Cipher.Toy.prims Cipher.Toy.laws
+    fl0 (by decide) evs0 described0 times0 cv0 cevs0 cwf0 items0
+    args0 (some keyText) rfl rfl [] ports0 rfl rfl (by decide +kernel) (by decide +kernel) p00 pkts0.tail fp0
+    t0 (by decide) (by decide) rfl rfl rfl rfl .tls12 (by decide) (by unfold Negotiated; decide)
+    ps0 hres a0 hargs f0 [] hfound secrets0 hsec k0 hgen cls0 hcls hmac hck hsk hsc hss hokc hoks hwr hlen
+    wires0 causal0'
+  have e1 : Spec.TlsConnection.plainOf t0.cEvs = hi := by decide +kernel
+  have e2 : Spec.TlsConnection.plainOf t0.sEvs = k16 := by decide +kernel
+  rw [e1, e2] at h
+  exact h
+end TLX.Props.C01File.Ex
